@@ -376,6 +376,10 @@ def eval_compose(case):
         prev = now
     if has_lib_cells(c, tlib):
         info['simulated'] = False
+        if any(st[0] == 'resolve' for st in case['steps']):   # resolve_tlib_cells ran and left library cells behind
+            left = sorted(x.name for x in c.nodes if x.kind in tlib.cells)
+            out.append(('resolve-incomplete', 'after resolve_tlib_cells() the circuit still contains library cells',
+                        {'unresolved': left[:6]}, {'unresolved': []}))
         return out, info
     try:
         got = simulate(c, rows, n)
@@ -661,6 +665,7 @@ WHAT = {
     'substitute-no-output-body': 'substitute()/resolve_tlib_cells() raise AttributeError for an implementation with internal nodes but without output (Node.__eq__(None))',
     'unconnected-data-pin': 'a flip-flop/latch cell instance whose data pin is unconnected resolves, but the result cannot be simulated (SimOps raises)',
     'elim-state-order': 'eliminate_1to1_forks() changes the order of the state elements in s_nodes (swap-with-last node deletion)',
+    'resolve-incomplete': 'resolve_tlib_cells() leaves library cells unresolved',
     'resolve-state-order': 'resolve_tlib_cells()/substitute() change the order of the state elements in s_nodes (Node.remove swaps the last node into the hole)',
     'substitute-state-order': 'substitute() of a node with an unconnected output removes nodes and thereby changes the order of the state elements in s_nodes',
     'elim-undriven-fork': 'eliminate_1to1_forks() raises IndexError for a non-port fork with one reader and no driver (left behind by resolve_tlib_cells for an unconnected instance pin)',
@@ -931,6 +936,7 @@ def corr_resolve(ck, n):
         c = rand_lib_circuit(rng, tlib, special=special, p_unconn_in=rng.choice([0.0, 0.08, 0.2]), p_unconn_out=rng.choice([0.0, 0.15, 0.4]))
         if rng.random() < 0.4: c = permuted(rng, c)
         kinds = sorted({x.kind for x in c.nodes if x.kind in tlib.cells})
+        c0json = to_json(c)
         blocks = ' '.join(f'@@ {circ.pct(k)} {names_arg(tlib.cells[k][0])} {circ.dump_net(tlib.cells[k][0])}' for k in kinds)
         req = f'resolve {names_arg(c)} {circ.dump_net(c)} {blocks}'
         try:
@@ -944,6 +950,14 @@ def corr_resolve(ck, n):
             continue
         if out != real:
             ck.broken_tie('resolve_tlib_cells model correspondence', f'model {out[:300]} != real {real[:300]}', inp={'request': req[:4000]})
+            # failing-input search on this very circuit: the property itself (resolve succeeds completely, names, function)
+            case = {'kind': 'compose', 'circuit': c0json, 'tlib': tl, 'steps': [['resolve']], 'seed': it}
+            try:
+                f, _info = eval_compose(case)
+            except Exception as ex:
+                f = []
+            report(ck, case, f, ('compose', json.dumps(c0json, sort_keys=True), '[["resolve"]]'), True, {'tlib': libtag, 'steps': [['resolve']]},
+                   ['stream:corr-resolve-oracle'])
         ck.case(key=('resolve', req), nontrivial=real != 'raise' and len(kinds) > 0,
                 tag=['stream:corr-resolve', f'lib:{libtag}', f'instances:{min(len(kinds), 4)}', f"resolve-result:{'raise' if real == 'raise' else 'ok'}"])
     ck.extra['corr_resolve_raised'] = raised
